@@ -1,6 +1,13 @@
+pub mod c01;
+pub mod c02;
+pub mod c03;
 pub mod c04;
+pub mod c05;
 pub mod c06;
+pub mod c08;
 pub mod common;
+pub mod exempt;
+pub mod generic;
 
 use crate::engine::Property;
 
@@ -10,8 +17,13 @@ pub fn all_ids() -> Vec<&'static str> {
 
 pub fn build(id: &str) -> Option<Property> {
     match id {
+        "C01" => Some(c01::property()),
+        "C02" => Some(c02::property()),
+        "C03" => Some(c03::property()),
         "C04" => Some(c04::property()),
+        "C05" => Some(c05::property()),
         "C06" => Some(c06::property()),
+        "C08" => Some(c08::property()),
         _ => None,
     }
 }
